@@ -77,6 +77,31 @@ func fieldStoresAny(fns []*ssa.Function, typeName string) []fieldStore {
 	return out
 }
 
+// contradictoryR: P and ¬P over conditions with the same rendering. Only for
+// functions that do not write the memory the conditions read in between.
+func contradictoryR(gs []Guard) bool {
+	seen := map[string]bool{}
+	for _, g := range gs {
+		p := predOf(g)
+		k := p.Kind + "|" + p.A + "|" + p.B + "|" + p.L.String()
+		pol := p.Pol
+		if p.Kind == "eq" {
+			k = "eqne|" + p.L.String()
+			pol = true
+		} else if p.Kind == "ne" {
+			k = "eqne|" + p.L.String()
+			pol = false
+		} else if p.Kind == "ge" {
+			continue
+		}
+		if prev, ok := seen[k]; ok && prev != pol {
+			return true
+		}
+		seen[k] = pol
+	}
+	return false
+}
+
 func isZeroConst(v ssa.Value) bool {
 	k, ok := constInt(v)
 	return ok && k == 0
